@@ -65,7 +65,7 @@ pub fn cancel_live_orders<R: RngCore>(
 
     let (live_orders, to_cancel): (Vec<OrderId>, Vec<OrderId>) = live_orders
         .into_iter()
-        .partition(|_| rng.gen::<f32>() > p_cancel);
+        .partition(|_| rng.gen::<f32>() >= p_cancel);
 
     for order_id in to_cancel.into_iter() {
         env.cancel_order(order_id);
@@ -171,7 +171,7 @@ pub fn cancel_live_orders_market<R: RngCore, const M: usize, const N: usize>(
 
     let (live_orders, to_cancel): (Vec<MarketOrderId>, Vec<MarketOrderId>) = live_orders
         .into_iter()
-        .partition(|_| rng.gen::<f32>() > p_cancel);
+        .partition(|_| rng.gen::<f32>() >= p_cancel);
 
     for order_id in to_cancel.into_iter() {
         env.cancel_order(order_id);
